@@ -48,12 +48,12 @@ theorem handleRequest_recorded {O : Oracle} {c : Conf} {s : State} {mac : Bytes}
     obtain ⟨hl, hm⟩ := hbrt_some hb
     split
     · exact ⟨l, hl, hm, rfl⟩
-    · refine ⟨{ l with host := commitName O l hn s, exp := s.now + c.leaseTime }, ?_, hm, rfl⟩
+    · refine ⟨{ l with host := commitName O c l hn s, exp := s.now + c.leaseTime }, ?_, hm, rfl⟩
       show _ ∈ (commitLease O c l hn s).leases
       unfold commitLease
-      show _ ∈ (renameLease l (commitName O l hn s) (s.now + c.leaseTime) s).leases
+      show _ ∈ (renameLease l (commitName O c l hn s) (s.now + c.leaseTime) s).leases
       rw [(renameLease_frame l _ _).1]
-      exact mem_mapId (fun x => { x with host := commitName O l hn s, exp := s.now + c.leaseTime }) hl
+      exact mem_mapId (fun x => { x with host := commitName O c l hn s, exp := s.now + c.leaseTime }) hl
 
 theorem handleDecline_recorded {c : Conf} {s : State} {mac : Bytes} {rp : Bool} {rip ci : Nat} (h : Inv c s) (hrc : (handleDecline c mac rp rip ci s).2.rc = 1)
     (hyi : (handleDecline c mac rp rip ci s).2.yi ≠ 0) :
@@ -146,6 +146,7 @@ theorem step_recorded {O : Oracle} {c : Conf} {s : State} {op : Op} {m : Bytes} 
   | rmStatic mac ip hn => simp [Op.mac?] at hm
   | sleep d => simp [Op.mac?] at hm
   | restart => simp [Op.mac?] at hm
+  | reorder d => simp [Op.mac?] at hm
 
 /-! ### liveness of DISCOVER -/
 
